@@ -193,26 +193,44 @@ def _widen_all(m, fields):
   return m
 
 
-def _pox_says(m, pkm):
-  try:
-    return pox_matches(pox_decode(M.pack_match(m)), None, None, pkm)
-  except Exception:
-    return None
+def _wider_word(w, fields):
+  for f in fields:
+    if f == "nw_src":
+      w = (w & ~M.OFPFW_NW_SRC_MASK) | (32 << M.OFPFW_NW_SRC_SHIFT)
+    elif f == "nw_dst":
+      w = (w & ~M.OFPFW_NW_DST_MASK) | (32 << M.OFPFW_NW_DST_SHIFT)
+    else:
+      w |= M.BIT_OF[f]
+  return w
 
 
 def _blame_refused(m, pkm):
   """POX refuses a frame the reference accepts: the smallest set of fields (dependent fields first) whose
-  additional wildcarding makes POX accept it."""
+  additional wildcarding makes POX accept it.  Diagnostic only (it selects the violation key): the
+  widened matches are clones of the decoded match whose wildcard word is recomputed the way
+  ofp_match.unpack(flow_mod=True) computes it."""
+  base = pox_decode(M.pack_match(m))
+
+  def says(fields):
+    c = base.clone()
+    try:
+      c.wildcards = c._normalize_wildcards(c._unwire_wildcards(_wider_word(m["wildcards"], fields)))
+      return bool(c.matches_with_wildcards(pkm, consider_other_wildcards=False))
+    except Exception:
+      return None
+  for f in _BLAME_ORDER:
+    if says([f]):
+      return [f]
   done = []
   for f in _BLAME_ORDER:
     done.append(f)
-    if _pox_says(_widen_all(m, done), pkm):
+    if says(done):
       break
   else:
     return []
   for f in list(done):
     rest = [x for x in done if x != f]
-    if _pox_says(_widen_all(m, rest), pkm):
+    if says(rest):
       done = rest
   return [f for f in M.MATCH_FIELDS if f in done]
 
@@ -470,7 +488,9 @@ def case_table(c, out):
           k = _mismatch_key(e["m"], frame, port, pf, True)
           break
       if k is None:
-        k = {"clause": "lookup-priority", "winner": _entry_kind(winners[0]["m"]), "got": _entry_kind(g["m"])}
+        wk = _entry_kind(winners[0]["m"])
+        k = {"clause": "lookup-priority", "winner": wk, "got": _entry_kind(g["m"]),
+             "implied_wildcards": wk in ("exact-arp", "exact-other", "exact-ip-other")}
       out.violations.append({"key": k, "msg": "entry %d (priority %d, %s) fired but entry %d (priority %d, %s) outranks it; %s" % (
           g["idx"], g["prio"], _entry_kind(g["m"]), winners[0]["idx"], winners[0]["prio"], _entry_kind(winners[0]["m"]), desc)})
   finally:
